@@ -2,7 +2,7 @@
    Property theorems only; proofs live in Proofs/. *)
 From Coq Require Import String ZArith List Bool.
 From XV Require Import Base.Label Base.LSet Base.ODict Base.Attr Base.Outcome Model.Hypergraph Model.HgCheck
-  Proofs.HgViews Proofs.HgInv Proofs.HgInvOps Proofs.HgStep.
+  Proofs.HgViews Proofs.HgInv Proofs.HgInvOps Proofs.HgStep Model.PyIR Gen.Mutators Proofs.MutatorSource.
 Import ListNotations.
 
 (* the empty hypergraph satisfies the invariant *)
@@ -51,3 +51,18 @@ Example C01_nonvacuous :
   length (h_edge (run c01_example_ops hg_empty)) = 4%nat.
 Proof. split; [simpl; tauto|split; vm_compute; reflexivity]. Qed.
 Print Assumptions C01_nonvacuous.
+
+(* THE SOURCE TIE for three core mutators.  Gen/Mutators.v holds the bodies of Hypergraph.add_node_to_edge, remove_edge and
+   remove_node_from_edge as programs of a small imperative language, regenerated from xgi/core/hypergraph.py on every
+   run (harness/translate_mutators.py, fail-closed).  Under the semantics of Model/PyIR.v (IDDict lookups raise
+   IDNotFound, None keys raise XGIError, set.remove of a missing element raises KeyError, the loop iterates a copy)
+   running them gives exactly the model's state, outcome and warning count: for add_node_to_edge on EVERY state, for the two
+   removals on every state satisfying the class invariant (where the lookups the code makes cannot fail) *)
+Theorem C01_core_mutators_are_source :
+  (forall e n s, run_method src_add_node_to_edge [e; n] [] s = add_node_to_edge e n s) /\
+  (forall e s, Inv s -> run_method src_remove_edge [e] [] s = remove_edge1 e s) /\
+  (forall e n re s, Inv s -> run_method src_remove_node_from_edge [e; n] [re] s = remove_node_from_edge e n re s).
+Proof.
+  split; [exact add_node_to_edge_is_source|]. split; [exact remove_edge_is_source|exact remove_node_from_edge_is_source].
+Qed.
+Print Assumptions C01_core_mutators_are_source.
